@@ -146,8 +146,8 @@ impl<M: RawMutex + 'static> StateApi for SState<M> {
     fn new() -> Self {
         let (t, r) = generic_state_broadcast_channel::<M, Val>();
         let chan = t.verif_channel() as *const _;
-        let mut tx = Vec::with_capacity(4);
-        let mut rx = Vec::with_capacity(4);
+        let mut tx = Vec::with_capacity(8);
+        let mut rx = Vec::with_capacity(8);
         tx.push(t);
         rx.push(r);
         SState { tx, rx, chan }
@@ -376,7 +376,7 @@ impl<A: StateApi> StateInner<A> {
         if !A::SHARED {
             out.push(Ev::new(CLOSE, 0, 0));
         } else {
-            let lim = if self.bounded { 2 } else { 3 };
+            let lim = if self.bounded { 2 } else { 5 };
             if self.api.n_tx() > 0 && self.api.n_tx() < lim {
                 out.push(Ev::new(CLONE_TX, 0, 0));
             }
